@@ -1221,3 +1221,247 @@ Proof.
   exists ex_cfg, (mkScenario [OConnected EPeerClose; OConnected EPeerClose] (Some (1%nat, PDial, true)) None false).
   vm_compute. repeat split; [eexists; reflexivity | auto 20 | discriminate].
 Qed.
+
+(* ================= 9. the context the loop runs under ================= *)
+
+(* every dial is started under a context that is not finished: before the first success a
+   cancelled caller's context makes the loop exit in the wait select instead of dialling again,
+   afterwards the loop runs under context.Background() *)
+Lemma loop_dial_ctx cfg sc : c_guard cfg = true -> forall script st,
+  ctx_done st = false -> forallb negb (dial_ctx_done cfg sc st script) = true.
+Proof.
+  intros G. induction script as [|o rest IH]; intros st C; [reflexivity|].
+  cbn [dial_ctx_done forallb]. rewrite C. cbn [negb andb].
+  destruct (iteration cfg sc st o) as [e r] eqn:It.
+  destruct (it_stop_facts _ _ _ _ _ _ G It) as (body & _ & _ & R).
+  destruct r as [s|s| |s]; try reflexivity.
+  apply IH. destruct R as (_ & _ & _ & [R|R] & _); unfold ctx_done; rewrite R; [reflexivity | apply andb_false_r].
+Qed.
+
+Theorem dials_with_live_context cfg sc : c_guard cfg = true ->
+  forallb negb (dial_ctx_done cfg sc (init_state cfg) (sc_script sc)) = true.
+Proof. intros G. apply loop_dial_ctx; [exact G | reflexivity]. Qed.
+
+(* --- after the first success no step of the loop depends on the caller's context --- *)
+Definition uncancel (st : lstate) : lstate :=
+  mkL (l_wait st) (l_first st) (l_started st) (l_disc st) false (l_task st) (l_k st) (l_iter st).
+Definition without_cancel (sc : scenario) : scenario := mkScenario (sc_script sc) (sc_disc sc) None (sc_post sc).
+Definition drop_cancel (t : list ev) : list ev := filter (fun e => negb (is_stop SCancel e)) t.
+Definition rmap (r : lres) : lres :=
+  match r with
+  | Running s => Running (uncancel s) | Exited s => Exited (uncancel s)
+  | Crashed => Crashed | Blocked s => Blocked (uncancel s)
+  end.
+(* the caller's context is only ever cancelled after the first success *)
+Definition Cinv (st : lstate) : Prop := l_cancel st = true -> l_first st = true.
+
+Lemma drop_cancel_app a b : drop_cancel (a ++ b) = drop_cancel a ++ drop_cancel b.
+Proof. apply filter_app. Qed.
+
+Lemma land_rel cfg sc i ph st st1 e1 cr :
+  (cancel_here sc i ph = true -> l_first st = true) -> Cinv st ->
+  land cfg sc i ph st = (st1, e1, cr) ->
+  land cfg (without_cancel sc) i ph (uncancel st) = (uncancel st1, drop_cancel e1, cr) /\
+  Cinv st1 /\ core_eq st st1.
+Proof.
+  unfold land, Cinv, core_eq, disc_effect, disc_here, cancel_here, without_cancel. cbn [sc_disc sc_cancel].
+  intros Hl Hc H. destruct st as [w f s d c t k it]. cbn [l_cancel l_first l_started uncancel set_cancel] in *.
+  destruct (match sc_cancel sc with Some (n, p) => Nat.eqb n i && phase_eqb p ph | None => false end);
+    destruct (match sc_disc sc with Some (n, p, tf) => if Nat.eqb n i && phase_eqb p ph then Some tf else None | None => None end) as [tf|];
+    cbn [l_started] in H; try destruct s; try destruct (c_guard cfg); try destruct ph; try destruct tf;
+    injection H as <- <- <-; cbn; repeat split; auto.
+Qed.
+
+Lemma exit_events_uncancel st : exit_events (uncancel st) = exit_events st /\ drop_cancel (exit_events st) = exit_events st.
+Proof. unfold exit_events. cbn [uncancel l_disc]. destruct (l_disc st); split; reflexivity. Qed.
+
+Lemma wait_rel cfg sc evs st e r :
+  Cinv st -> (cancel_here sc (l_iter st) PWait = true -> l_first st = true) ->
+  wait_phase cfg sc evs st = (e, r) ->
+  wait_phase cfg (without_cancel sc) (drop_cancel evs) (uncancel st) = (drop_cancel e, rmap r) /\
+  match r with Running s | Exited s | Blocked s => Cinv s /\ l_first s = l_first st | Crashed => True end.
+Proof.
+  intros C Hl H. unfold wait_phase in *. change (l_iter (uncancel st)) with (l_iter st).
+  destruct (land cfg sc (l_iter st) PWait st) as [[st1 e1] cr] eqn:L.
+  destruct (land_rel _ _ _ _ _ _ _ _ Hl C L) as (-> & C1 & (_ & Cf & _)).
+  destruct (exit_events_uncancel st1) as (X1 & X2).
+  destruct cr.
+  - injection H as <- <-. rewrite drop_cancel_app. auto.
+  - change (l_disc (uncancel st1)) with (l_disc st1). change (l_cancel (uncancel st1)) with false. cbn [andb].
+    assert (E : l_cancel st1 && negb (l_first st1) = false).
+    { destruct (l_cancel st1) eqn:A; [rewrite (C1 A); reflexivity | reflexivity]. }
+    rewrite E in H. destruct (l_disc st1).
+    + injection H as <- <-. rewrite !drop_cancel_app, X1, X2. auto.
+    + injection H as <- <-. rewrite !drop_cancel_app. split; [reflexivity|]. split; [|exact Cf].
+      unfold Cinv in *. cbn [next_iter l_cancel l_first]. exact C1.
+Qed.
+
+Lemma blocks_uncancel cfg f st : Cinv st -> blocks cfg f (uncancel st) = blocks cfg f st.
+Proof.
+  intros C. unfold blocks. destruct f; try reflexivity. cbn [uncancel l_cancel l_first l_disc andb].
+  destruct (l_cancel st) eqn:A; [rewrite (C A)|]; reflexivity.
+Qed.
+
+Lemma drop_cancel_cons_dial i t : drop_cancel (EvDial i :: t) = EvDial i :: drop_cancel t.
+Proof. reflexivity. Qed.
+
+Ltac rel_land H Hph st' e cr L R C' K :=
+  match type of H with
+  | context [land ?cfg ?sc ?i ?ph ?st] =>
+    destruct (land cfg sc i ph st) as [[st' e] cr] eqn:L;
+    assert (R : land cfg (without_cancel sc) i ph (uncancel st) = (uncancel st', drop_cancel e, cr) /\ Cinv st' /\ core_eq st st');
+    [ apply land_rel; [Hph | | exact L] | destruct R as (R & C' & K) ]
+  end.
+
+Lemma task_uncancel st :
+  match l_task (uncancel st) with DQueued => set_task DRan (uncancel st) | _ => uncancel st end =
+  uncancel (match l_task st with DQueued => set_task DRan st | _ => st end).
+Proof. cbn [uncancel l_task]. destruct (l_task st); reflexivity. Qed.
+
+Lemma drop_cancel_conn k c t : drop_cancel (EvOpen k :: EvConnect k c :: t) = EvOpen k :: EvConnect k c :: drop_cancel t.
+Proof. reflexivity. Qed.
+Lemma drop_cancel_close k : drop_cancel [EvClose k] = [EvClose k].
+Proof. reflexivity. Qed.
+
+Ltac dc :=
+  unfold drop_cancel;
+  repeat first [rewrite filter_app | progress cbn [filter is_stop negb app] | rewrite <- app_assoc].
+Ltac dc_in H :=
+  unfold drop_cancel in H;
+  repeat first [rewrite filter_app in H | progress cbn [filter is_stop negb app] in H | rewrite <- app_assoc in H].
+
+Lemma iteration_rel cfg sc st o e r :
+  Cinv st ->
+  (forall ph, cancel_here sc (l_iter st) ph = true ->
+     l_first st = true \/ (is_success o = true /\ (ph = PConnected \/ ph = PWait))) ->
+  iteration cfg sc st o = (e, r) ->
+  iteration cfg (without_cancel sc) (uncancel st) o = (drop_cancel e, rmap r) /\
+  match r with
+  | Running s | Exited s | Blocked s => Cinv s /\ l_first s = l_first st || is_success o
+  | Crashed => True
+  end.
+Proof.
+  intros C Hp H. unfold iteration in *. change (l_iter (uncancel st)) with (l_iter st).
+  rel_land H ltac:(intros A; destruct (Hp _ A) as [F | (_ & [F|F])]; [exact F | discriminate | discriminate]) s1 e1 c1 L1 R1 C1 K1; [exact C|].
+  rewrite R1. cbv beta iota. pose proof K1 as (_ & Kf & _ & Kk & Ki).
+  destruct c1; [injection H as <- <-; split; [dc; reflexivity | exact I]|].
+  destruct o as [|f|ce].
+  - (* dial error *)
+    apply wait_rel in H; [| exact C1 | rewrite Ki; intros A; destruct (Hp _ A) as [F | (F & _)]; [congruence | discriminate]].
+    destruct H as (H & R). dc_in H. dc. rewrite H. split; [reflexivity|].
+    destruct r; auto; destruct R as (Ra & Rb); rewrite Rb, Kf, orb_false_r; auto.
+  - (* connect failed *)
+    unfold dial_ok in *.
+    change (set_client (uncancel s1)) with (uncancel (set_client s1)).
+    change (l_iter (uncancel s1)) with (l_iter s1).
+    change (l_k (uncancel s1)) with (l_k s1).
+    rel_land H ltac:(cbn [set_client l_iter l_first]; rewrite Ki; intros A; destruct (Hp _ A) as [F | (F & _)]; [congruence | discriminate]) s2 e2 c2 L2 R2 C2 K2;
+      [unfold Cinv in *; cbn [set_client l_cancel l_first]; exact C1|].
+    rewrite R2. cbv beta iota. pose proof K2 as (_ & Kf0 & _ & Kk0 & Ki0). cbn [set_client l_first l_iter] in Kf0, Ki0.
+    destruct c2; [injection H as <- <-; split; [dc; reflexivity | exact I]|].
+    rewrite (blocks_uncancel _ _ _ C2).
+    destruct (blocks cfg f s2).
+    + injection H as <- <-. split; [dc; reflexivity|]. split; [exact C2|]. rewrite Kf0, Kf, orb_false_r. reflexivity.
+    + rewrite task_uncancel.
+      set (st3 := match l_task s2 with DQueued => set_task DRan s2 | _ => s2 end) in *.
+      assert (E3 : Cinv st3 /\ l_first st3 = l_first st /\ l_iter st3 = l_iter st).
+      { unfold st3, Cinv in *. destruct (l_task s2); cbn [set_task l_cancel l_first l_iter]; repeat split; auto; congruence. }
+      destruct E3 as (C3 & F3 & I3).
+      apply wait_rel in H; [| exact C3 | rewrite I3, F3; intros A; destruct (Hp _ A) as [F | (F & _)]; [exact F | discriminate]].
+      destruct H as (H & R). dc_in H. dc. rewrite H. split; [reflexivity|].
+      destruct r; auto; destruct R as (Ra & Rb); rewrite Rb, F3, orb_false_r; auto.
+  - (* connected *)
+    unfold dial_ok in *.
+    change (set_client (uncancel s1)) with (uncancel (set_client s1)).
+    change (l_iter (uncancel s1)) with (l_iter s1).
+    change (l_k (uncancel s1)) with (l_k s1).
+    rel_land H ltac:(cbn [set_client l_iter l_first]; rewrite Ki; intros A; destruct (Hp _ A) as [F | (_ & [F|F])]; [congruence | discriminate | discriminate]) s2 e2 c2 L2 R2 C2 K2;
+      [unfold Cinv in *; cbn [set_client l_cancel l_first]; exact C1|].
+    rewrite R2. cbv beta iota.
+    destruct c2; [injection H as <- <-; split; [dc; reflexivity | exact I]|].
+    change (set_first (set_wait (c_base cfg) (uncancel s2))) with (uncancel (set_first (set_wait (c_base cfg) s2))).
+    rel_land H ltac:(intros _; reflexivity) s4 e4 c4 L4 R4 C4 K4; [unfold Cinv; intros _; reflexivity|].
+    rewrite R4. cbv beta iota. pose proof K4 as (_ & Kf4 & _ & _ & Ki4). cbn [set_first set_wait l_first l_iter] in Kf4, Ki4.
+    destruct c4; [injection H as <- <-; split; [dc; reflexivity | exact I]|].
+    change (l_disc (uncancel s4)) with (l_disc s4). change (l_task (uncancel s4)) with (l_task s4).
+    destruct (exit_events_uncancel s4) as (X1 & X2). unfold drop_cancel in X2. rewrite X1.
+    assert (Fin : Cinv s4 /\ l_first s4 = l_first st || is_success (OConnected ce))
+      by (split; [exact C4 | rewrite Kf4; cbn [is_success]; rewrite orb_true_r; reflexivity]).
+    destruct (l_disc s4).
+    + injection H as <- <-. split; [|exact Fin]. destruct (l_task s4); dc; rewrite X2; reflexivity.
+    + assert (Hw : cancel_here sc (l_iter s4) PWait = true -> l_first s4 = true) by (intros _; exact Kf4).
+      destruct ce;
+        try solve [ apply wait_rel in H; [| exact C4 | exact Hw]; destruct H as (H & R); dc_in H; dc; rewrite H; (split; [reflexivity|]);
+                    destruct r; auto; destruct R as (Ra & Rb); (split; [exact Ra | rewrite Rb, Kf4; cbn [is_success]; rewrite orb_true_r; reflexivity]) ].
+      injection H as <- <-. split; [|exact Fin]. dc. rewrite X2. reflexivity.
+Qed.
+
+Lemma cancel_here_true sc i ph : cancel_here sc i ph = true -> sc_cancel sc = Some (i, ph).
+Proof.
+  unfold cancel_here. destruct (sc_cancel sc) as [[n p]|]; [|discriminate]. intros H.
+  apply andb_true_iff in H as [H1 H2]. apply Nat.eqb_eq in H1. subst n.
+  destruct p, ph; try discriminate; reflexivity.
+Qed.
+
+Definition late_ph (ph : phase) : Prop := ph = PConnected \/ ph = PWait.
+
+(* wherever the cancellation is still to land, a connection has succeeded by then *)
+Definition cancel_after_success (sc : scenario) (st : lstate) (script : list outcome) : Prop :=
+  forall n ph, sc_cancel sc = Some (n, ph) -> (l_iter st <= n)%nat ->
+    l_first st = true \/ existsb is_success (firstn (n - l_iter st) script) = true \/
+    (exists o, nth_error script (n - l_iter st) = Some o /\ is_success o = true /\ late_ph ph).
+
+Lemma loop_rel cfg sc script : forall st,
+  Cinv st -> cancel_after_success sc st script ->
+  loop cfg (without_cancel sc) (uncancel st) script =
+    (drop_cancel (fst (loop cfg sc st script)), rmap (snd (loop cfg sc st script))).
+Proof.
+  induction script as [|o rest IH]; intros st C Hl; [reflexivity|].
+  cbn [loop]. destruct (iteration cfg sc st o) as [e1 r1] eqn:It.
+  assert (Hp : forall ph, cancel_here sc (l_iter st) ph = true ->
+                l_first st = true \/ (is_success o = true /\ (ph = PConnected \/ ph = PWait))).
+  { intros ph A. apply cancel_here_true in A. destruct (Hl _ _ A (le_n _)) as [F | [F | (o' & E & Sx & P)]]; [left; exact F | |].
+    - rewrite Nat.sub_diag in F. discriminate.
+    - rewrite Nat.sub_diag in E. injection E as <-. right. auto. }
+  destruct (iteration_rel _ _ _ _ _ _ C Hp It) as (-> & R).
+  pose proof (it_struct _ _ _ _ _ _ It) as (_ & _ & _ & Sr).
+  destruct r1 as [s1|s1| |s1]; try reflexivity.
+  destruct R as (C1 & F1). destruct Sr as (_ & I1 & _). cbn [rmap].
+  rewrite IH; [| exact C1 |].
+  - destruct (loop cfg sc s1 rest) as [e2 r2]. cbn [fst snd]. rewrite drop_cancel_app. reflexivity.
+  - intros n ph A Hn. rewrite I1 in *.
+    destruct (Hl _ _ A) as [F | [F | (o' & E & Sx & P)]]; [lia | left; rewrite F1, F; reflexivity | |].
+    + replace (n - l_iter st)%nat with (S (n - S (l_iter st))) in F by lia. cbn [firstn existsb] in F.
+      apply orb_true_iff in F as [F|F]; [left; rewrite F1, F; apply orb_true_r | right; left; exact F].
+    + replace (n - l_iter st)%nat with (S (n - S (l_iter st))) in E by lia. cbn [nth_error] in E.
+      right; right. exists o'. auto.
+Qed.
+
+(* After the first success no step of the loop depends on the caller's context: if the context
+   passed to Connect is cancelled (or expires) at a point by which a connection has succeeded,
+   the loop does exactly what it does when the context is never cancelled. *)
+Theorem caller_context_irrelevant_after_first_success cfg sc :
+  (forall n ph, sc_cancel sc = Some (n, ph) ->
+     existsb is_success (firstn n (sc_script sc)) = true \/
+     (exists o, nth_error (sc_script sc) n = Some o /\ is_success o = true /\ (ph = PConnected \/ ph = PWait))) ->
+  drop_cancel (trace cfg sc) = trace cfg (without_cancel sc).
+Proof.
+  intros H. unfold trace, run. cbn [sc_script sc_post without_cancel].
+  change (init_state cfg) with (uncancel (init_state cfg)) at 2.
+  rewrite loop_rel.
+  - destruct (loop cfg sc (init_state cfg) (sc_script sc)) as [e r]. cbn [fst snd].
+    destruct r as [s|s| |s]; try reflexivity. cbn [rmap].
+    change (l_disc (uncancel s)) with (l_disc s). change (l_started (uncancel s)) with (l_started s).
+    destruct (sc_post sc && negb (l_disc s)); [|reflexivity]. cbn [fst].
+    rewrite drop_cancel_app. unfold post_disconnect. change (l_started (uncancel s)) with (l_started s).
+    destruct (l_started s || c_guard cfg); reflexivity.
+  - intros A. discriminate.
+  - intros n ph A _. cbn [init_state l_iter]. rewrite Nat.sub_0_r. right. apply H. exact A.
+Qed.
+
+Example ex_caller_context_irrelevant :
+  let sc := mkScenario [ODialErr; OConnected EPeerClose; OConnFail (CRefused 3); OConnected EProtoErr]
+                       (Some (3%nat, PWait, true)) (Some (1%nat, PConnected)) false in
+  drop_cancel (trace ex_cfg sc) = trace ex_cfg (without_cancel sc) /\
+  dials (trace ex_cfg sc) = [0; 1; 2; 3]%nat /\ existsb (is_stop SCancel) (trace ex_cfg sc) = true.
+Proof. vm_compute. repeat split. Qed.
